@@ -3,7 +3,7 @@ from ._util import H, KGroup
 
 
 def plan(tier, seed):
-    n = 4 if tier == "quick" else 6
+    n = 4 if tier == "quick" else 5
     wr = [H("c15::w_special_f32", "write NaN/inf/0 (all payloads/signs), default options", "all special bit patterns"),
           H("c15::w_special_f64", "", "all special bit patterns"),
           H("c15::w_special_custom_f32", "custom nan/inf strings (symbolic letters)", "string length 1..4"),
